@@ -207,6 +207,46 @@ def m_int(vm, args, kw):
     return int(*args, **kw)
 
 
+def m_abs(vm, args, kw):
+    v = args[0]
+    if isinstance(v, SInt):
+        return mk_int(z3.If(v.e < 0, -v.e, v.e))
+    if isinstance(v, Sym):
+        raise Unsupported('abs of ' + type(v).__name__)
+    return abs(v)
+
+
+def int_divmod(vm, a, b):
+    """(a // b, a % b) for a symbolic a and a concrete positive b: fresh quotient/remainder, one linear equation."""
+    if is_sym(b):
+        raise Unsupported('division by symbolic int')
+    if b == 0:
+        raise ZeroDivisionError('integer division or modulo by zero')
+    if b < 0:
+        raise Unsupported('negative divisor')
+    e = zint(a)
+    key = ('divmod', e.tid, b)
+    hit = vm.path_cache.get(key)
+    if hit is not None:
+        return hit
+    lo, hi = z3.bounds(e)
+    q = vm._fresh_int('q', lo // b if lo is not None else None, hi // b if hi is not None else None).e
+    r = vm._fresh_int('r', 0, b - 1).e
+    z3.DEFS[q.args[0]] = lambda model, e=e, b=b: z3.evaluate(e, model) // b
+    z3.DEFS[r.args[0]] = lambda model, e=e, b=b: z3.evaluate(e, model) % b
+    vm.add_pc(e == q * b + r)
+    out = (mk_int(q), mk_int(r))
+    vm.path_cache[key] = out
+    return out
+
+
+def m_divmod(vm, args, kw):
+    a, b = args
+    if isinstance(a, (SInt, SBool)) or isinstance(b, (SInt, SBool)):
+        return int_divmod(vm, a, b)
+    return divmod(a, b)
+
+
 def m_bool(vm, args, kw):
     return vm.truth(args[0]) if args else False
 
@@ -857,7 +897,7 @@ def sm_unpack(vm, o, args, kw):
 def install(vm):
     M = vm.models
     for fn, model in [
-        (len, m_len), (isinstance, m_isinstance), (type, m_type), (int, m_int), (bool, m_bool), (str, m_str),
+        (len, m_len), (abs, m_abs), (divmod, m_divmod), (isinstance, m_isinstance), (type, m_type), (int, m_int), (bool, m_bool), (str, m_str),
         (ord, m_ord), (bytes, m_bytes), (bytearray, m_bytearray), (min, m_minmax(True)), (max, m_minmax(False)),
         (sum, m_sum), (any, m_any), (all, m_all), (sorted, m_sorted), (enumerate, m_enumerate), (zip, m_zip),
         (reversed, m_reversed), (list, m_list), (tuple, m_tuple), (range, m_range), (map, m_map),
